@@ -201,6 +201,11 @@ def plans_c17(prop, tier, seed):
              consts=base_consts(NR=2, Writer0=[1, 2], Lid=["X"] * 2, Denied=[set()] * 2, MaxE=3, MaxOps=5 if q else 6,
                                 PCs={1}, PubOn={1}, WriteFaults=True),
              max_scripts=3000 if q else 30000),
+        # size-bounded merges inside the histories: trimming the in-memory window must never touch the store (S17h)
+        dict(name="crashJB", audit="c17", mode="all",
+             consts=base_consts(NR=2, Writer0=[1, 2], Lid=["X"] * 2, Denied=[set()] * 2, MaxE=4, MaxOps=6 if q else 7,
+                                PCs={1}, PubOn={1}, Sizes={1, 2}),
+             max_scripts=2500 if q else 30000),
         dict(name="crash3", audit="c17", mode="all",
              consts=base_consts(MaxE=4 if q else 5, MaxOps=6 if q else 8, PCs={1, 4}, PubOn={1}, Fn="HASH"),
              max_scripts=1500 if q else 30000),
